@@ -345,10 +345,13 @@ def run(doc, log):
                 raise
             s1 = spectra[0][1]
             s2 = np.sort(job2.eigenvalues)
-            Kall = float(np.abs(K).max())
             sc = max(float(np.abs(s1).max()), 1e-300)
-            if np.abs(s1 - s2).max() > 1e-6 * sc + 1e-9 * lam_char:
-                raise Violation(PROP, "rigid-motion-invariance", f"spectrum changes under a rigid motion of the mesh by {np.abs(s1-s2).max():.3e} (scale {sc:.3e})", site="FreeVibration.rigid-motion")
+            tol = 1e-6 * sc + 1e-9 * lam_char
+            top = min(s1.max(), s2.max()) - 10 * tol
+            for x, other in ((s1, s2), (s2, s1)):
+                for val in x[x < top]:
+                    if np.abs(other - val).min() > tol:
+                        raise Violation(PROP, "rigid-motion-invariance", f"eigenvalue {val:.8e} of the spectrum is not found after a rigid motion of the mesh (nearest {other[np.abs(other - val).argmin()]:.8e})", site="FreeVibration.rigid-motion")
             log.count("rigid-twin-compared")
     return {
         "signature": "|".join([w.mesh.cell_type, doc["field"]["kind"], doc["items"][0]["umat"]["name"], str(doc["bc"].get("list", [{}])[0].get("name")) + str(len(doc["bc"].get("list", []))), "".join(sig), str(doc.get("twin")), str([o.get("v0_seed") for o in doc["ops"] if o["op"] == "evaluate"][:2])]),
